@@ -159,6 +159,30 @@ theorem C16_reachable_inv (cfg : Int) (path : Path) (ds : List Dgram) :
     obtain ⟨acc', hi, _, _⟩ := step_inv P Q path acc st d h
     exact ih _ acc' hi
 
+/-- The window that guards application data is built from the Config that governs the connection
+when the read epoch changes: for a connection created with `Config.ReplayWindow = created` on which
+the handshake installed a per-client Config (`GetConfigForClient`, `installed = some c`) or none,
+the state after the handshake is the one all receive-path theorems start from for the governing
+Config's value, and the width distances are compared with is the documented window of THAT value
+(never below 32, never below it up to 64) — whatever size the connection was created with. -/
+theorem C16_handshake_window_governing (created : Int) (installed : Option Int) :
+    afterHandshakeGov P created installed = afterHandshake P (installed.getD created) ∧
+    span P (afterHandshakeGov P created installed).win = ReplaySpec.docWindow (installed.getD created) ∧
+    (afterHandshakeGov P created installed).win.size = (newFromConfig P (installed.getD created)).size := by
+  have h1 : afterHandshakeGov P created installed = afterHandshake P (installed.getD created) := by
+    cases installed <;> rfl
+  have hsz : ∀ c : Int, ((check P (newFromConfig P c) 0).1).size = (newFromConfig P c).size :=
+    fun c => check_size P _ 0
+  refine ⟨h1, ?_, ?_⟩
+  · rw [h1]
+    have := C16_config_window (installed.getD created)
+    unfold afterHandshake
+    simp only
+    unfold span at this ⊢
+    rw [hsz]
+    exact this
+  · rw [h1]; exact hsz _
+
 /-- Authentic only, all histories, both paths: whatever the network delivers (duplicates,
 replays, reordering, forgeries, junk), every payload handed to the application is the
 content of an application-data record the peer protected on this connection, under the epoch
